@@ -555,6 +555,21 @@ static int on_cp32(uint32_t cp, void *ud) {
     l->n++;
     return AWS_OP_SUCCESS;
 }
+/* a callback that closes a record at every code point by calling aws_utf8_decoder_finalize() on the decoder that is calling it:
+ * the callback runs at a code point boundary, where "the text ends here" is always true, so each of these calls succeeds and
+ * the verdict and the reported code points stay what they are without it - however the text is cut into updates (added after a
+ * seeded change that kept the decoder's state in locals for the duration of an update) */
+struct cplog32_re {
+    struct cplog32 log;
+    struct aws_utf8_decoder *dec;
+    int nested_failures;
+};
+static int on_cp32_finalizing(uint32_t cp, void *ud) {
+    struct cplog32_re *l = (struct cplog32_re *)ud;
+    on_cp32(cp, &l->log);
+    if (l->dec && aws_utf8_decoder_finalize(l->dec) != AWS_OP_SUCCESS) l->nested_failures++;
+    return AWS_OP_SUCCESS;
+}
 static uint64_t utf8long_total(void) { return 5ull * 5 * 21 * 4; }
 static void utf8long_eval(uint64_t idx, void *ctx) {
     (void)ctx;
@@ -606,6 +621,32 @@ static void utf8long_eval(uint64_t idx, void *ctx) {
         }
         if (ok) ok = aws_utf8_decoder_finalize(d) == AWS_OP_SUCCESS;
         aws_utf8_decoder_destroy(d);
+        if (plan != 1) { /* the same feeding plan with the record-closing callback */
+            struct cplog32_re re;
+            memset(&re, 0, sizeof(re));
+            struct aws_utf8_decoder_options o2 = {.on_codepoint = on_cp32_finalizing, .user_data = &re};
+            struct aws_utf8_decoder *d2 = aws_utf8_decoder_new(aws_default_allocator(), &o2);
+            re.dec = d2;
+            int ok2;
+            if (plan == 0) {
+                ok2 = aws_utf8_decoder_update(d2, aws_byte_cursor_from_array(src, n)) == AWS_OP_SUCCESS;
+            } else {
+                size_t cut = plan - 1;
+                uint8_t *c1 = bee_block(src, cut), *c2 = bee_block(src + cut, n - cut);
+                ok2 = aws_utf8_decoder_update(d2, aws_byte_cursor_from_array(c1, cut)) == AWS_OP_SUCCESS && aws_utf8_decoder_update(d2, aws_byte_cursor_from_array(c2, n - cut)) == AWS_OP_SUCCESS;
+                free(c1);
+                free(c2);
+            }
+            re.dec = NULL;
+            if (ok2) ok2 = aws_utf8_decoder_finalize(d2) == AWS_OP_SUCCESS;
+            aws_utf8_decoder_destroy(d2);
+            V_COUNT("evaluations", 1);
+            int same2 = re.log.n == nw;
+            for (int k = 0; same2 && k < nw; ++k) same2 = re.log.cp[k] == want[k];
+            BEE_CHECK(ok2 && re.nested_failures == 0 && same2, "utf8-chunk-verdict-with-finalizing-callback",
+                      "well-formed text %s fed %s with a callback that finalizes the decoder at every code point: verdict %s, %d of the nested finalize calls failed, %d of %d code points reported", v_show(t, n),
+                      plan == 0 ? "whole" : "in two pieces", ok2 ? "valid" : "INVALID", re.nested_failures, re.log.n, nw);
+        }
         BEE_CHECK(ok, "utf8-valid-text-refused", "well-formed %zu-byte text %s refused (feeding plan %zu)", n, v_show(t, n), plan);
         int same = got.n == nw;
         for (int k = 0; same && k < nw; ++k) same = got.cp[k] == want[k];
